@@ -2,7 +2,7 @@
    Directives in use: those of ExtrOcamlBasic (bool, option, unit, list, prod, sumbool, sumor, comparison as
    OCaml's own types) and nothing else; Z/positive/N/nat/string/ascii stay the extracted inductives. *)
 From Coq Require Import Extraction ExtrOcamlBasic ZArith String List.
-From TLX Require Import PyLib SuiteTypes SuiteParser SuiteTable Iana QuicPn Rfc9000 Varint QuicFrames FrameTable Checksum Crypto KeySchedule QuicKeys.
+From TLX Require Import PyLib SuiteTypes SuiteParser SuiteTable Iana QuicPn Rfc9000 Varint QuicFrames FrameTable Checksum Crypto KeySchedule QuicKeys Packet Reassembly Decryptor TlsSession OutputBuilder Frames PcapngWriter Main.
 
 Definition x_suite (c : Z) : option suite := split_cipher_suite table parts c.
 Definition x_denote (n : string) : option denotation := denote n.
@@ -15,7 +15,7 @@ Definition x_parse_frames := parse_frames frame_table.
 Definition x_varint := decode_variable_length_int.
 Definition x_varint_len := get_variable_length_int_length.
 Definition x_cksum (off : Z) (v6 : bool) (src dst : bytes) (proto : Z) (sg : bytes) (fld : Z) :=
-  calculate_checksum off {| ipv6 := v6; ip_src := src; ip_dst := dst; proto := proto; seg := sg; field := fld |}.
+  calculate_checksum off {| Checksum.ipv6 := v6; Checksum.ip_src := src; Checksum.ip_dst := dst; Checksum.proto := proto; Checksum.seg := sg; Checksum.field := fld |}.
 Definition x_occ := ones_complement_checksum.
 Definition x_derive_session_keys := derive_session_keys.
 Definition x_dev_initial_keys := dev_initial_keys.
@@ -26,4 +26,7 @@ Definition x_prf_tls_10_11 := prf_tls_10_11.
 Definition x_prf_tls_12 := prf_tls_12.
 Definition x_gen_ms_12 := gen_master_secret_tls_12.
 Definition x_make_info := make_info.
-Extraction "model.ml" x_derive_session_keys x_dev_initial_keys x_dev_quic_keys x_key_update x_prf_ssl_30 x_prf_tls_10_11 x_prf_tls_12 x_gen_ms_12 x_make_info x_cksum x_occ x_parse_frames x_varint x_varint_len x_full_pn x_rfc_pn x_quic_nonce x_suite x_denote x_iana index from_be to_be Z.add Z.mul Z.div Z.modulo Z.eqb Z.ltb.
+Definition x_run_tls (C : Crypto) (o : options) := run_tls C table parts o.
+Definition x_write_file := write_file.
+Definition x_extract := extract.
+Extraction "model.ml" x_run_tls x_write_file x_extract x_derive_session_keys x_dev_initial_keys x_dev_quic_keys x_key_update x_prf_ssl_30 x_prf_tls_10_11 x_prf_tls_12 x_gen_ms_12 x_make_info x_cksum x_occ x_parse_frames x_varint x_varint_len x_full_pn x_rfc_pn x_quic_nonce x_suite x_denote x_iana index from_be to_be Z.add Z.mul Z.div Z.modulo Z.eqb Z.ltb.
